@@ -1891,6 +1891,56 @@ func strContains(s, sub string) bool { return strings.Contains(s, sub) }
 //@   assigns  as.SegmentTemplate.MultipleSegmentBaseType, as.SegmentTemplate.Media, as.SegmentTemplate.SegmentTimeline.S
 //@   allocates
 
+// adjustAdaptationSetForSegmentNumber: the plain $Number$ template has no timeline, the configured
+// start number, and - when the VoD MPD gives no duration - the average segment duration of the first
+// representation in its media timescale (for constant-duration assets THE segment duration: see
+// lemmaNumberTemplateAgrees).
+//@ func adjustAdaptationSetForSegmentNumber
+//@   wiring
+//@   requires as != nil && as.SegmentTemplate != nil && a != nil && wfCfg(cfg) && a.Reps != nil && len(as.Representations) >= 1 && as.Representations[0] != nil && a.Reps[as.Representations[0].Id] != nil && wfRep(a.Reps[as.Representations[0].Id])
+//@   exit 1 requires noTimeline: as.SegmentTemplate.SegmentTimeline == nil
+//@   exit 1 requires startNumberFromCfg: cfg.StartNr != nil ==> as.SegmentTemplate.StartNumber != nil && int(*as.SegmentTemplate.StartNumber) == *cfg.StartNr
+//@   exit 1 requires averageDuration: old(as.SegmentTemplate.Duration) == nil && as.ContentType != "audio" ==> as.SegmentTemplate.Duration != nil && *as.SegmentTemplate.Duration == uint32(repDur(a.Reps[as.Representations[0].Id]) / len(a.Reps[as.Representations[0].Id].Segments)) && as.SegmentTemplate.Timescale != nil && *as.SegmentTemplate.Timescale == uint32(a.Reps[as.Representations[0].Id].MediaTimescale)
+//@   exit 1 requires givenDurationKept: old(as.SegmentTemplate.Duration) != nil ==> as.SegmentTemplate.Duration == old(as.SegmentTemplate.Duration)
+
+// constDur: every VoD segment of the representation lasts D ticks.
+func constDur(rep *RepData, D int) bool {
+	return forall(0, len(rep.Segments), func(i int) bool { return int(rep.Segments[i].EndTime)-int(rep.Segments[i].StartTime) == D })
+}
+
+// lemmaNumberTemplateAgrees: for an asset with constant segment duration D whose first segment
+// starts at 0, the n-th segment (counted from the start number) ends at (n+1)*D, and the average
+// duration written into the $Number$ template is D: the availability implied by
+// SegmentTemplate@duration/@startNumber (DASH: availabilityStartTime + (n+1)*D/timescale) is the
+// availability time the segment server uses (specAvailS, C04).
+//@ lemma lemmaNumberTemplateAgrees
+//@   requires a != nil && wfRep(rep) && orderedRep(rep) && loopExact(a, rep) && rep.Segments[0].StartTime == 0 && n >= 0 && D > 0 && constDur(rep, D)
+//@   use      lemmaWrapDurIsRepDur(a, rep)
+//@   ensures  specEnd(a, rep, n) == (n+1)*D && specStart(a, rep, n) == n*D
+//@   ensures  repDur(rep)/len(rep.Segments) == D
+//@   loop 1 invariant 0 <= i && i <= N && N == len(rep.Segments) && (forall k in [0, i) :: int(rep.Segments[k].EndTime) == (k+1)*D)
+//@   loop 1 decreases N - i
+func lemmaNumberTemplateAgrees(a *asset, rep *RepData, n, D int) {
+	N := len(rep.Segments)
+	for i := 0; i < N; i++ {
+		assert(i == 0 || int(rep.Segments[i].StartTime) == int(rep.Segments[i-1].EndTime))
+		assert(int(rep.Segments[i].EndTime) == (i+1)*D)
+	}
+	W := wrapDurOf(a, rep)
+	assert(int(rep.Segments[N-1].EndTime) == N*D)
+	assert(W == N*D)
+	lemmaDivMul(D, 0, N)
+	q := n / N
+	r := n % N
+	assert(n == q*N+r)
+	assert(int(rep.Segments[r].EndTime) == (r+1)*D)
+	assert(q*W == q*N*D)
+	assert((n+1)*D == q*N*D+(r+1)*D)
+	assert(r == 0 || int(rep.Segments[r].StartTime) == int(rep.Segments[r-1].EndTime))
+	assert(int(rep.Segments[r].StartTime) == r*D)
+	assert(n*D == q*N*D+r*D)
+}
+
 // adjustAdaptationSetForTimelineTime: the $Time$ timeline carries exactly the generated runs.
 //@ func adjustAdaptationSetForTimelineTime
 //@   requires as != nil && as.SegmentTemplate != nil
